@@ -2,6 +2,7 @@ package main
 
 import (
 	"fmt"
+	"github.com/tidwall/geojson/geo"
 	"math"
 	"strconv"
 
@@ -198,6 +199,18 @@ func buildObjPool(size int) *objPool {
 		p.add(geojson.NewPoint(q), "Point", q)
 		p.add(geojson.NewMultiPoint([]geometry.Point{q}), "MultiPoint", nil)
 		p.add(geojson.NewFeature(geojson.NewPoint(q), ""), "Feature", nil)
+	}
+	// pairs of circles whose rims touch to the last bits: the second radius is
+	// the library's own centre distance minus the first radius, and its
+	// neighbouring floats
+	for _, pr := range [][5]float64{{0, 0, 1, 0, 100.1}, {10, 20, 11, 21, 3000.7}, {2, 48, 3, 49, 0.3}} {
+		dl := geo.DistanceTo(pr[1], pr[0], pr[3], pr[2])
+		p.add(geojson.NewCircle(geometry.Point{X: pr[0], Y: pr[1]}, pr[4], 64), "Circle", nil)
+		rb := math.Nextafter(math.Nextafter(dl-pr[4], 0), 0)
+		for k := -2; k <= 2; k++ {
+			p.add(geojson.NewCircle(geometry.Point{X: pr[2], Y: pr[3]}, rb, 64), "Circle", nil)
+			rb = math.Nextafter(rb, math.Inf(1))
+		}
 	}
 	// probes that discriminate the great-circle disc from its 64-gon: between
 	// two polygon vertices, just inside / just outside the disc of radius
